@@ -219,6 +219,13 @@ class C05(Property):
             {"kind": "pl", "n": 2, "maxage": 0, "vp": 4, "scripts": [[[0, 0], [0, 0], [1, 0], [1, 0], [0, 0], [0, 0]]], "sched": [0] * 8},
             {"kind": "pl", "n": 2, "maxage": 100, "vp": 5, "scripts": [[[0, 0], [1, 0], [2, 500], [0, 0], [0, 0], [1, 0], [1, 0], [0, 0]]], "sched": [0] * 10},
             {"kind": "pl", "n": 2, "maxage": 0, "vp": 6, "scripts": [[[0, 0], [1, 0]], [[0, 0], [1, 0], [0, 0], [0, 0]]], "sched": [0, 1, 0, 1, 0, 1, 1, 1, 1]},
+            # -- seed C05-11: the user's destroy() panics on the expiry path of Get (opcode 5; rendered as PGetX: with
+            #    exactly ONE idle resource, expired, the Get whose callback panics takes the same step in the model
+            #    whichever callback it is): the resource is gone, the Get panics, and the full capacity must still
+            #    be obtainable afterwards - limit Gets served, one more blocks
+            {"kind": "pl", "n": 1, "maxage": 100, "scripts": [[[0, 0], [1, 0], [2, 500], [5, 0], [0, 0], [1, 0], [0, 0]], [[0, 0]]], "sched": [0] * 9 + [1]},
+            {"kind": "pl", "n": 2, "maxage": 100, "scripts": [[[0, 0], [0, 0], [1, 0], [2, 500], [5, 0], [0, 0], [1, 0], [1, 0], [0, 0], [0, 0]], [[0, 0]]], "sched": [0] * 13 + [1]},
+            {"kind": "pl", "n": 3, "maxage": 100, "vp": 2, "scripts": [[[0, 0], [1, 0], [2, 150], [5, 0], [0, 0], [1, 0], [2, 150], [5, 0], [0, 0], [0, 0], [0, 0], [0, 0]]], "sched": [0] * 16},
             # -- seed C05-3: a handler behind MaxConns takes the connection over (http.Hijacker); the connection
             #    is closed twice (legal), the second time while another request is inside; then the route is
             #    loaded up to the cap: the probe must be refused
@@ -424,7 +431,7 @@ class C05(Property):
         if rng.random() < 0.55:
             return c
         simple = len(c["scripts"]) == 1 and c.get("maxage", 0) <= 0 and not c.get("ns") \
-            and not any(o[0] == 4 for sc in c["scripts"] for o in sc)
+            and not any(o[0] in (4, 5) for sc in c["scripts"] for o in sc)
         c["vp"] = rng.choice([1, 1, 2, 2, 3, 4, 5, 6] + ([7, 7, 8, 8, 9, 9] if simple else []))
         return c
 
@@ -447,6 +454,26 @@ class C05(Property):
         sched = [rng.randrange(nt) for _ in range(rng.randint(total, 3 * total))]
         return {"kind": "pl", "n": n, "maxage": rng.choice([0, 0, 100]), "vp": rng.choice([1, 1, 2, 2, 3, 5]),
                 "scripts": [[list(o) for o in sc] for sc in scripts], "sched": sched}
+
+    def _pool_destroy_panic(self, rng):
+        """seed C05-11 class: destroy() panics while Get drops an expired idle resource; afterwards the full
+        capacity must be obtainable.  Exactly one idle resource at the moment of the panicking Get (see PGetX)."""
+        n = rng.choice([1, 1, 2, 2, 3])
+        s = []
+        held = 0
+        for _ in range(rng.randint(1, 3)):
+            m = rng.randint(max(held, 1), n) - held      # take some more (at least one held in total)
+            s += [[0, 0]] * m
+            held += m
+            s += [[1, 0], [2, rng.choice([150, 500])], [5, 0]]   # one goes idle, expires, its destroy() panics
+            held -= 1
+        s += [[1, 0]] * rng.randint(0, held)
+        s += [[0, 0]] * (n + 1)
+        scripts = [[list(o) for o in s], [[0, 0]] + ([[1, 0]] if rng.random() < 0.5 else [])]
+        c = {"kind": "pl", "n": n, "maxage": 100, "scripts": scripts, "sched": [0] * (len(s) + 2) + [1, 0, 1, 0]}
+        if rng.random() < 0.4:
+            c["vp"] = rng.choice([1, 2, 3, 4, 5, 6])
+        return c
 
     def _hijack(self, rng):
         """seed C05-3 class: handlers behind MaxConns that take the connection over; Close() of such a
@@ -571,7 +598,7 @@ class C05(Property):
         if r < 0.27:
             return self._workers(rng)
         if r < 0.37:
-            return rng.choice([self._engine, self._engine, self._hijack, self._pool_stale_put, self._pool_values])(rng)
+            return rng.choice([self._engine, self._engine, self._hijack, self._pool_stale_put, self._pool_values, self._pool_destroy_panic])(rng)
         kind = rng.choice(["lim", "lim", "lim", "tr", "tr", "pl", "pl"])
         n = rng.choice([1, 1, 1, 2, 2, 2, 3, 4, 0, 2000] if kind != "pl" else [1, 1, 2, 2, 3, 4])
         nt = rng.randint(1, 6)
@@ -637,7 +664,7 @@ class C05(Property):
             cases.append(self._pool_overlap(rng))
         for _ in range(max(15, n // 30)):
             cases.append(self._pool_phases(rng))
-        for fam in (self._pool_stale_put, self._pool_values, self._hijack, self._engine, self._engine):
+        for fam in (self._pool_stale_put, self._pool_values, self._pool_destroy_panic, self._hijack, self._engine, self._engine):
             for _ in range(max(8, n // 50)):
                 cases.append(fam(rng))
         while len(cases) < n:
@@ -741,7 +768,7 @@ class C05(Property):
                     lastt = e["t"]
                     if kk == 3 and e["a"] < nt:
                         op = case["scripts"][e["a"]][e["op"]]
-                        res[a].append(-1 if (case["kind"] == "pl" and op[0] not in (0, 4)) else v)
+                        res[a].append(-1 if (case["kind"] == "pl" and op[0] not in (0, 4, 5)) else v)
                 stat = {loc[x["a"]]: x for x in s["st"] if x["a"] in loc}
                 ids = sorted(stat)
                 order += [t for t in ids if t not in order]
@@ -807,7 +834,7 @@ class C05(Property):
             return "(KCtor %d%%nat %s)" % (CTOR_OBJ[case["obj"]], cz(n))
         if case["kind"] == "cond":
             return "KCond"
-        sc = clist([clist([{0: "PGet", 1: "PPut", 2: "PAdv %s" % cz(o[1]), 3: "PAdv 0", 4: "PGetX"}[o[0]] for o in s]) for s in scripts])
+        sc = clist([clist([{0: "PGet", 1: "PPut", 2: "PAdv %s" % cz(o[1]), 3: "PAdv 0", 4: "PGetX", 5: "PGetX"}[o[0]] for o in s]) for s in scripts])
         return "(KPL %d%%nat %s %s)" % (n, cz(case.get("maxage", 0)), sc)
 
     def coq_case(self, case, obs):
@@ -880,7 +907,9 @@ class C05(Property):
         if any(e[2] == 6 for e in log):
             fs.append("has_expiry_destroy")
         if case["kind"] == "pl" and any(e[2] == 3 and e[4] == -2 for e in log):
-            fs.append("has_create_panic")
+            fs.append("has_create_panic" if not any(o[0] == 5 for sc in case["scripts"] for o in sc) else "has_callback_panic")
+        if case["kind"] == "pl" and any(o[0] == 5 for sc in case["scripts"] for o in sc):
+            fs.append("has_destroy_panic")
         if any(s["skip"] and s["a"] != FOREIGN for p in obs.get("parts", []) for s in p["steps"]):
             fs.append("has_stutter")
         return fs
